@@ -10,9 +10,9 @@ import (
 )
 
 type propCheck struct {
-	level  string
+	level   string
 	needSSA bool
-	run    func(p *Prog, r *Report)
+	run     func(p *Prog, r *Report)
 }
 
 var registry = map[string]*propCheck{}
